@@ -92,6 +92,8 @@ type c17Case struct {
 	// Loads: the schema arrives as these successive documents (an arrangement of the same
 	// definitions), with an introspection request after every load
 	Loads []string `json:"loads,omitempty"`
+	// FailedLoad: a refused document (see refusedExtension) is loaded before the requests
+	FailedLoad bool `json:"failed_load,omitempty"`
 }
 
 type resolverRoot struct{}
@@ -206,6 +208,26 @@ func numEqText(a, b string) bool {
 	return fa == fb || float32(fa) == float32(fb)
 }
 
+// refusedExtension writes a document that adds a member to every object, interface, enum and input
+// type of the schema and breaks a validation rule at its end.
+func refusedExtension(s *hx.Schema) string {
+	var b strings.Builder
+	for _, td := range s.Types {
+		switch td.Kind {
+		case hx.KObject:
+			fmt.Fprintf(&b, "extend type %s { zq9: Int zq8: Int @deprecated }\n", td.Name)
+		case hx.KInterface:
+			fmt.Fprintf(&b, "extend interface %s { zq7: Int @deprecated }\n", td.Name)
+		case hx.KEnum:
+			fmt.Fprintf(&b, "extend enum %s { ZQ9 ZQ8 @deprecated }\n", td.Name)
+		case hx.KInput:
+			fmt.Fprintf(&b, "extend input %s { zq9: Int }\n", td.Name)
+		}
+	}
+	b.WriteString("interface ZqI { a: Int }\ntype Zq9 implements ZqI { b: Int }\n")
+	return b.String()
+}
+
 func checkC17(c *c17Case) (ds []hx.Discrepancy, info map[string]bool) {
 	info = map[string]bool{}
 	sdl := c.Schema.SDL(hx.SDLOpts{})
@@ -228,6 +250,14 @@ func checkC17(c *c17Case) (ds []hx.Discrepancy, info map[string]bool) {
 		}
 	} else if err := root.ParseString(sdl); err != nil {
 		return []hx.Discrepancy{{Kind: "setup", Detail: fmt.Sprintf("schema rejected: %v\n%s", err, sdl)}}, info
+	}
+	if c.FailedLoad {
+		// a document that extends every type it can and is then refused (in validation, after the
+		// extensions were applied): the root has to describe the schema as before
+		info["refused-load-before-the-request"] = true
+		if err := root.ParseString(refusedExtension(c.Schema)); err == nil {
+			return []hx.Discrepancy{{Kind: "setup", Detail: "the document meant to be refused was accepted:\n" + refusedExtension(c.Schema)}}, info
+		}
 	}
 	for i, inc := range append([]string{c.InclDep}, c.Then...) {
 		one := *c
@@ -669,8 +699,9 @@ func TestC17(t *testing.T) {
 				}
 			}
 		}
+		failed := rapid.IntRange(0, 3).Draw(rt, "refusedLoad") == 0
 		for _, rk := range []string{"reflection", "resolver", "any"} {
-			one(rt.Fatalf, &c17Case{Schema: s, RootKind: rk, InclDep: inc, Then: then, Loads: loads})
+			one(rt.Fatalf, &c17Case{Schema: s, RootKind: rk, InclDep: inc, Then: then, Loads: loads, FailedLoad: failed})
 		}
 	})
 }
